@@ -168,21 +168,33 @@ Definition send_frame (s : stream) (data : bytes) (flag : N) : stream * sres fra
 Definition max_wire (s : stream) : N :=
   if enc_active s then MaxMessageSize + WireSlack else MaxMessageSize.
 
+(* what a FAILED decryptDataWithAAD leaves behind: once the body is long enough to hold the
+   (optional) IV and a tag, the first-frame flag is set and both digests are frozen BEFORE
+   gcm.Open runs, and stay so when it fails; the counter does not move.  (decryptIV is also
+   overwritten from a would-be first frame, but it is overwritten again by every later attempt
+   while the counter is 0 and never read before, so the model leaves it.) *)
+Definition fail_decrypt (s : stream) (blen : N) : stream :=
+  if (if dec_ctr s =? 0 then IvLenRecv + MinTagLen else MinTagLen) <=? blen
+  then upd_recv s (dec_iv s) (dec_ctr s) true
+         (fin_dg (fin_recv_aad s) (send_dg s)) (fin_dg (fin_recv_aad s) (recv_dg s))
+  else s.
+
 (* decryptDataWithAAD on an encrypting stream *)
-Definition decrypt_with (s : stream) (k hdr div : bytes) (c : ctext) : stream * sres bytes :=
+Definition decrypt_with (s : stream) (k hdr div : bytes) (c : ctext) (blen : N) : stream * sres bytes :=
   match open k (nonce_of div (dec_ctr s)) (aad_recv s hdr) c with
   | Some p => (upd_recv s div (dec_ctr s + 1) true
                  (fin_dg (fin_recv_aad s) (send_dg s)) (fin_dg (fin_recv_aad s) (recv_dg s)), SOk p)
-  | None => (s, SErr EDecrypt)
+  | None => (fail_decrypt s blen, SErr EDecrypt)
   end.
 Definition decrypt (s : stream) (k : bytes) (hdr : bytes) (b : body) : stream * sres bytes :=
+  let blen := body_len b in
   match b with
-  | Raw _ => (s, SErr EDecrypt)                 (* not a ciphertext term: fails to open *)
+  | Raw _ => (fail_decrypt s blen, SErr EDecrypt)     (* not a ciphertext term: fails to open *)
   | Ct ivo c =>
       match dec_ctr s =? 0, ivo with
-      | true, Some iv => if lenN iv =? 16 then decrypt_with s k hdr iv c else (s, SErr EDecrypt)
-      | false, None => decrypt_with s k hdr (dec_iv s) c
-      | _, _ => (s, SErr EDecrypt)
+      | true, Some iv => if lenN iv =? 16 then decrypt_with s k hdr iv c blen else (fail_decrypt s blen, SErr EDecrypt)
+      | false, None => decrypt_with s k hdr (dec_iv s) c blen
+      | _, _ => (fail_decrypt s blen, SErr EDecrypt)
       end
   end.
 
